@@ -43,6 +43,7 @@ def run_stream(stream, max_iv):
   nxt = [1]
   received = {}        # interval -> set of values received (since the buffer for it was created)
   pending = {}         # interval -> values received since its last emission
+  ever = {}            # interval -> every value ever received for it
   ever_emitted = set()
   for ev in stream:
     if ev == 'tick':
@@ -67,6 +68,9 @@ def run_stream(stream, max_iv):
           return 'interval %d emitted %r without the values %r received since its last emission' % (iv, sorted(vals), sorted(pending[iv] - vals))
         if vals != received.get(iv, set()):
           return 'interval %d emitted %r, not the values %r received since its buffer was created' % (iv, sorted(vals), sorted(received.get(iv, set())))
+        if iv >= cur - max_iv * FREQ and vals != ever.get(iv, set()):
+          return 'interval %d is within the retention horizon (>= %d) but was emitted with %r, not with all the values %r received for it' % (
+            iv, cur - max_iv * FREQ, sorted(vals), sorted(ever.get(iv, set())))
         pending[iv] = set()
         ever_emitted.add(iv)
       for iv, p in pending.items():
@@ -93,6 +97,7 @@ def run_stream(stream, max_iv):
       iv = ts - ts % FREQ
       received.setdefault(iv, set()).add(v)
       pending.setdefault(iv, set()).add(v)
+      ever.setdefault(iv, set()).add(v)
   return None
 
 
@@ -197,6 +202,17 @@ def main():
         break
     if len(fails) >= 2:
       break
+  # longer, structured streams: more than MAX+2 intervals opened in every order, a flush, one more
+  # datapoint for each of them in turn, a flush
+  for max_iv in (0, 1, 2):
+    k = max_iv + 3
+    for order in itertools.permutations(range(k)):
+      for again in range(k):
+        stream = list(order) + ['tick', again + 1, 'tick', again + 2, 'tick']
+        evals += 1
+        r = run_stream(stream, max_iv)
+        if r and not fails:
+          fails.append({'id': 'aggregator-stream', 'MAX_AGGREGATION_INTERVALS': max_iv, 'stream': stream, 'what': r})
   pe, pf = sweep_processor()
   evals += pe
   fails += pf
@@ -204,4 +220,9 @@ def main():
 
 
 if __name__ == '__main__':
-  main()
+  import os as _os
+  sys_path_dir = _os.path.dirname(_os.path.abspath(__file__))
+  import sys as _sys
+  _sys.path.insert(0, sys_path_dir)
+  from _guard import run_guarded
+  run_guarded(main, _os.path.basename(__file__))
